@@ -75,10 +75,30 @@ def check_solve(spec, counters, violations, fault_at=None, persistent=False, tig
     if second is not None:
         # a second solve after an earlier one (stale 'found a point' state must not leak): make the goal
         # unreachable (zero tolerance) or keep it
-        try:
-            S.opt.solve(broyden=spec["broyden"])
-        except Exception:
-            pass
+        if isinstance(second, list):
+            # other optimizer entry points are used first (each may fail, which is their business): whatever they leave
+            # behind, the solve() checked afterwards is an ordinary one with the default settings
+            for name, arg in second[1]:
+                try:
+                    if name == "step_percall":
+                        S.opt.step(arg, disable_vary=[0], disable_target=[0])
+                    else:
+                        getattr(S.opt, name)(n_steps=arg)
+                    counters["prior_calls_returned"] = counters.get("prior_calls_returned", 0) + 1
+                except Exception:
+                    counters["prior_calls_raised"] = counters.get("prior_calls_raised", 0) + 1
+            # solve_homotopy moves the target values: the checked solve is judged against the values the targets hold now
+            S.spec = spec = dict(spec, tars=[float(t.value) for t in S.targets])
+            # the unbounded scipy entry points may leave knobs outside their limits: not a start point for a solve
+            for i, lim in enumerate(spec["limits"]):
+                if lim is not None and not lim[0] <= S.cont[S.names[i]] <= lim[1]:
+                    counters["prior_calls_left_knobs_outside_limits"] = counters.get("prior_calls_left_knobs_outside_limits", 0) + 1
+                    return 0
+        else:
+            try:
+                S.opt.solve(broyden=spec["broyden"])
+            except Exception:
+                pass
         if second == "zero-tol":
             for t in S.targets:
                 t.tol = 0.0
@@ -203,6 +223,12 @@ def run_shard(spec_):
                 spec_d["dis_v"][rng.randrange(spec["n"])] = True
             guarded(violations, spec_d, check_solve, spec_d, counters, violations, second="move-disabled")
         counters["second_solve_runs"] = counters.get("second_solve_runs", 0) + 1
+        menu = [["solve_homotopy", rng.choice([2, 3, 6])], ["run_simplex", 3], ["run_jacobian", 2], ["run_bfgs", 2], ["run_l_bfgs_b", 2],
+                ["run_ls_trf", 2], ["step_percall", 2], ["solve_homotopy", 4]]
+        for npri in (1, 2):
+            prior = ["prior", [rng.choice(menu) for _ in range(npri)]]
+            guarded(violations, spec, check_solve, spec, counters, violations, second=prior)
+            counters["solves_after_other_entry_points"] = counters.get("solves_after_other_entry_points", 0) + 1
         for _ in range(2):
             guarded(violations, spec, check_solve, spec, counters, violations, fault_at=rng.choice([1, 2, 3, 5]),
                     persistent=rng.random() < 0.5, presteps=[rng.choice([1, 2]), rng.choice([None, 0, 1, 2, 3])])
@@ -224,7 +250,7 @@ TEXT = ("Fault enumeration: for each generated problem (~440 quick / ~30 000 tho
         "is made to raise at every call position up to 12 (transient and persistent variants), checking that knobs and "
         "active flags equal log row 0; limit-violation failures are produced by tightening limits after construction. "
         "The problem families themselves are sampled."
-        ' Plus moved-then-disabled scenarios (manual steps, disable without clear_log, faulted solve) and the family `pinned` (solution just beyond a limit, finite-difference step of the size of the tolerance).')
+        ' Plus moved-then-disabled scenarios (manual steps, disable without clear_log, faulted solve) and the family `pinned` (solution just beyond a limit, finite-difference step of the size of the tolerance). Plus solves after other entry points were used on the same object (solve_homotopy, run_simplex, run_jacobian, run_bfgs, run_l_bfgs_b, run_ls_trf, step with per-call arguments; each may fail).')
 NOTE = ("Trusted: the harness's own deterministic merit function for re-evaluation; row 0 of opt.log() read before the "
         "solve as the reference for restoration.")
 TECHNIQUE = "runtime monitoring with fault injection: independent re-evaluation oracle on return + action faults injected at every call position, restoration compared with the recorded log row 0"
